@@ -650,6 +650,243 @@ def _dyn_entry(args):
                 "reason": "harness child failed: %s: %s" % (type(e).__name__, e)}
 
 
+
+# ------------------------------------------------------------------------------------------------------
+# the model's primitives, checked BEHAVIOURALLY on the real base classes (every run, exhaustively)
+# ------------------------------------------------------------------------------------------------------
+
+class _Raiser:
+    """stands for an OS resource whose every operation fails"""
+
+    def __init__(self):
+        object.__setattr__(self, "calls", [])
+
+    def __getattr__(self, name):
+        def f(*a, **k):
+            self.calls.append(name)
+            raise OSError("injected failure of the OS resource (%s)" % name)
+        return f
+
+    def __bool__(self):
+        return True
+
+
+def _snapshot(obj):
+    return {k: (id(v), repr(v) if isinstance(v, (bool, int, str, float, type(None))) else None) for k, v in vars(obj).items()}
+
+
+def _changed(before, obj):
+    after = _snapshot(obj)
+    return sorted(k for k in set(before) | set(after) if before.get(k) != after.get(k))
+
+
+def _transport_ctor_args(cls):
+    import typing
+    args = {}
+    try:
+        hints = typing.get_type_hints(cls.__init__)
+    except Exception:  # noqa: BLE001
+        hints = {}
+    named = {"host": "127.0.0.1", "port": 5025, "device": "COM1", "baudrate": 9600, "vendorid": 1, "productid": 1,
+             "serialnr": "X", "local_port": 5026}
+    for pn, p in list(inspect.signature(cls.__init__).parameters.items())[1:]:
+        if p.kind in (p.VAR_POSITIONAL, p.VAR_KEYWORD) or p.default is not p.empty:
+            continue
+        args[pn] = named[pn] if pn in named else synth(hints.get(pn, inspect.Parameter.empty), pn)
+    return args
+
+
+def base_behaviour():
+    """QMI_Instrument.open/close/_check_is_open/_check_is_closed/is_open and QMI_Transport.open/close/_check_is_open
+    (on the base class and on every transport subclass) are small total functions of (flag, does the hook raise?).
+    They are run on the real classes for every argument and compared with what the model's primitives
+    (CheckOpen/CheckClosed/SetOpen/SetClosed, LinkOpen/LinkClose) say: outcome, exception class, resulting flag,
+    which hooks ran, and that nothing else on the object changed.
+    -> (problems [(key, text, detail)], coq case terms, summary)"""
+    import unittest.mock
+    from qmi.core.context import QMI_Context
+    from qmi.core.instrument import QMI_Instrument
+    from qmi.core import transport as T
+    from qmi.core.exceptions import QMI_InvalidOperationException
+    problems, terms, summary = [], [], {"instrument_cases": 0, "transport_cases": 0, "transport_classes": [],
+                                        "transport_classes_syntactic_fallback": []}
+
+    def bad(key, text, **detail):
+        problems.append(("base-behaviour:" + key, text, dict(detail, phase="base-behaviour")))
+
+    # ---- instrument -----------------------------------------------------------------------------------
+    class _Stub(QMI_Instrument):
+        pass
+
+    def new_inst(flag):
+        ctx = unittest.mock.MagicMock(spec=QMI_Context)
+        ctx.name = "c19ctx"
+        i = _Stub(ctx, "c19base")
+        if i.is_open() is not False:
+            bad("QMI_Instrument.__init__", "a new instrument reports is_open()=%r" % (i.is_open(),))
+        if flag:
+            i.open()            # (open from closed is itself one of the cases below)
+        return i
+
+    def run(obj, name):
+        try:
+            return "N", getattr(obj, name)(), None
+        except Exception as e:  # noqa: BLE001
+            return "X", None, e
+
+    prim = {"open": "seql [CheckClosed; SetOpen]", "close": "seql [CheckOpen; SetClosed]",
+            "_check_is_open": "CheckOpen", "_check_is_closed": "CheckClosed", "is_open": "Skip"}
+    expect = {  # (op, flag) -> (outcome, flag afterwards): what the primitives of Model.v do
+        ("open", False): ("N", True), ("open", True): ("X", True),
+        ("close", True): ("N", False), ("close", False): ("X", False),
+        ("_check_is_open", True): ("N", True), ("_check_is_open", False): ("X", False),
+        ("_check_is_closed", False): ("N", False), ("_check_is_closed", True): ("X", True),
+        ("is_open", False): ("N", False), ("is_open", True): ("N", True)}
+    for (op, flag), (eo, ef) in expect.items():
+        i = new_inst(flag)
+        if bool(i.is_open()) != flag:
+            bad("QMI_Instrument.open:setup", "could not bring the stub instrument into flag=%s" % flag, op=op, flag=flag)
+            continue
+        if not hasattr(i, op):
+            bad("QMI_Instrument.%s:missing" % op, "QMI_Instrument has no %s any more" % op, op=op)
+            continue
+        before = _snapshot(i)
+        out, val, exc = run(i, op)
+        after_flag = bool(i.is_open())
+        ch = _changed(before, i)
+        summary["instrument_cases"] += 1
+        terms.append("(%s, ob %s false 0, %s, ob %s false 0)" % (prim[op], common.cbool(flag),
+                                                                "Normal" if out == "N" else "Exc", common.cbool(after_flag)))
+        why = []
+        if (out, after_flag) != (eo, ef):
+            why.append("outcome %s, is_open() afterwards %s; the model's primitive gives %s, %s" % (out, after_flag, eo, ef))
+        if out == "X" and not isinstance(exc, QMI_InvalidOperationException):
+            why.append("raises %s, not QMI_InvalidOperationException" % type(exc).__name__)
+        if op == "is_open" and out == "N" and val is not flag:
+            why.append("returns %r" % (val,))
+        if len(ch) > (1 if after_flag != flag else 0):
+            why.append("attributes changed: %s" % ch)
+        if why:
+            bad("QMI_Instrument.%s:flag-%s" % (op, flag), "QMI_Instrument.%s() with is_open()=%s: %s" % (op, flag, "; ".join(why)),
+                cls="QMI_Instrument", op=op, flag=flag)
+
+    # ---- transports -------------------------------------------------------------------------------------
+    def subclasses(c):
+        out = []
+        for k in c.__subclasses__():
+            if k.__module__.startswith("qmi.core.") and k not in out:
+                out.append(k)
+                out += [x for x in subclasses(k) if x not in out]
+        return out
+
+    for mod in ("qmi.core.transport_usbtmc_pyusb", "qmi.core.transport_usbtmc_visa"):
+        try:
+            importlib.import_module(mod)
+        except Exception:  # noqa: BLE001
+            pass
+    for cls in [T.QMI_Transport] + subclasses(T.QMI_Transport):
+        hook = {"calls": 0, "raise": None}
+
+        def _open_transport(self, hook=hook):
+            hook["calls"] += 1
+            if hook["raise"] is not None:
+                raise hook["raise"]
+        S = type("C19Stub_" + cls.__name__, (cls,), {"_open_transport": _open_transport})
+
+        def new_tr(flag):
+            t = S(**_transport_ctor_args(cls))
+            base = _snapshot(t)
+            if flag:
+                hook["raise"] = None
+                t.open()
+            return t, base
+        try:
+            t0, _ = new_tr(False)
+        except Exception as e:  # noqa: BLE001
+            fb = TR.transport_close_shape(common.REPO, cls.__name__)
+            summary["transport_classes_syntactic_fallback"].append({"class": cls.__name__, "why": "%s: %s" % (type(e).__name__, e),
+                                                                    "problems": fb})
+            for p_ in fb:
+                bad("%s:shape" % cls.__name__, "transport class %s cannot be instantiated by the harness and its close() "
+                    "does not have the expected shape: %s" % (cls.__name__, p_), cls=cls.__name__)
+            continue
+        summary["transport_classes"].append(cls.__name__)
+        # discover the flag attribute: the one boolean that flips when open() succeeds
+        before = _snapshot(t0)
+        hook["raise"] = None
+        t0.open()
+        flips = [k for k in _changed(before, t0) if isinstance(vars(t0).get(k), bool)]
+        if len(flips) != 1 or vars(t0)[flips[0]] is not True or hook["calls"] != 1:
+            bad("%s.open:flag" % cls.__name__, "%s.open() on a new transport: hook calls %d, boolean attributes that "
+                "changed: %s" % (cls.__name__, hook["calls"], flips), cls=cls.__name__, op="open", flag=False)
+            continue
+        fl = flips[0]
+
+        def held(t):
+            return bool(vars(t)[fl])
+        cases = [("open", False, None), ("open", False, RuntimeError("injected hook failure")), ("open", True, None),
+                 ("close", True, "quiet"), ("close", True, "failing"), ("close", False, "failing"),
+                 ("_check_is_open", True, None), ("_check_is_open", False, None)]
+        for op, flag, fault in cases:
+            t, _ = new_tr(flag)
+            hook["calls"], hook["raise"] = 0, fault if op == "open" else None
+            res = None
+            if op == "close":
+                res = _Raiser() if fault == "failing" else unittest.mock.MagicMock()
+                for k, v in list(vars(t).items()):
+                    if v is None:
+                        object.__setattr__(t, k, res)
+            before = _snapshot(t)
+            out, val, exc = run(t, op)
+            ch = [k for k in _changed(before, t) if k != fl]
+            h = held(t)
+            summary["transport_cases"] += 1
+            why = []
+            if op == "open":
+                if flag:
+                    want = ("X", True, 0)
+                elif fault is None:
+                    want = ("N", True, 1)
+                else:
+                    want = ("X", False, 1)
+                if (out, h, hook["calls"]) != want:
+                    why.append("outcome %s, open afterwards %s, _open_transport called %d time(s); LinkOpen gives %s" % (
+                        out, h, hook["calls"], want))
+                if flag and out == "X" and not isinstance(exc, QMI_InvalidOperationException):
+                    why.append("refusal raises %s" % type(exc).__name__)
+                if not flag and fault is not None and out == "X" and exc is not fault:
+                    why.append("the hook's exception is not propagated unchanged (%s)" % type(exc).__name__)
+                if cls is T.QMI_Transport:
+                    terms.append("(LinkOpen 0, ob false %s 0, %s, ob false %s %d)" % (
+                        common.cbool(flag), "Normal" if out == "N" else "Exc", common.cbool(h),
+                        1 if (out == "N" and hook["calls"]) else 0))
+            elif op == "close":
+                if not flag:
+                    if out != "X" or h or not isinstance(exc, QMI_InvalidOperationException) or (res and res.calls):
+                        why.append("close() on a closed transport: outcome %s (%s), open afterwards %s, resource touched %s; "
+                                   "LinkClose refuses without touching anything" % (out, type(exc).__name__, h, getattr(res, "calls", None)))
+                else:
+                    if h:
+                        why.append("close() %s leaves the transport marked OPEN (resource %s); LinkClose releases the link "
+                                   "even when the release fails" % ("raising %s" % type(exc).__name__ if out == "X" else "returning", fault))
+                    if fault == "quiet" and out != "N":
+                        why.append("close() with a quiet resource raises %s" % type(exc).__name__)
+                if cls is T.QMI_Transport:
+                    terms.append("(LinkClose 0, ob false %s 0, %s, ob false %s 0)" % (
+                        common.cbool(flag), "Normal" if out == "N" else "Exc", common.cbool(h)))
+            else:
+                if (out == "N") != flag or h != flag or (out == "X" and not isinstance(exc, QMI_InvalidOperationException)):
+                    why.append("_check_is_open() with open=%s: outcome %s (%s), open afterwards %s" % (
+                        flag, out, type(exc).__name__ if exc else None, h))
+            if ch and op != "close":
+                why.append("other attributes changed: %s" % ch)
+            if why:
+                bad("%s.%s:open-%s:%s" % (cls.__name__, op, flag, "fault" if fault not in (None, "quiet") else "ok"),
+                    "%s.%s() with transport open=%s%s: %s" % (cls.__name__, op, flag, ", hook/resource failing" if fault not in (None, "quiet") else "",
+                                                             "; ".join(why)), cls=cls.__name__, op=op, flag=flag,
+                    fault=repr(fault))
+    return problems, terms, summary
+
 # ------------------------------------------------------------------------------------------------------
 # the property oracle on the implementation's observations (independent of the Coq model)
 # ------------------------------------------------------------------------------------------------------
